@@ -9,6 +9,11 @@
   group-membership checks of the repaired code (OTRv2: nonzero mod p; OTRv3: 2 ≤ n ≤ p−2) no modular
   inverse can fail, so no message makes the arithmetic panic; `processSMPTLV_safe` (Proofs.ConvData):
   the state machine keeps its well-formedness invariant and never dereferences a missing state.
+  `c12_exponent_out_of_range_rejected_1..4`: a received zero-knowledge-proof exponent outside [1, q)
+  (`isExponent`, the range check of the repaired code) makes `smpNVerify` return false for every
+  other field value and every state — message 3: `.ok false`, the check precedes `divModP`, so no
+  panic either; `c12_exponent_plus_q_rejected_1..4`, `c12_exponent_zero_rejected_1..4`: in particular
+  d + q in place of d, and d = 0, in each exponent position of each message.
   Recovery: every rejected message leaves the machine in EXPECT1 (transition facts regenerated from
   /repo: Props.FactsOk.transitions_smpState) from which `c11_equal_success` applies.
   Not a theorem: computational soundness of the proofs against a cheater who deviates within the
@@ -28,6 +33,40 @@ theorem c12_success_guard3 : type_of% @Otr.c12_success_guard3 := @Otr.c12_succes
 theorem c12_success_guard4 : type_of% @Otr.c12_success_guard4 := @Otr.c12_success_guard4
 
 theorem smp3Verify_ok_true_iff : type_of% @Otr.smp3Verify_ok_true_iff := @Otr.smp3Verify_ok_true_iff
+
+theorem isExponent_iff : type_of% @Otr.isExponent_iff := @Otr.isExponent_iff
+
+theorem c12_exponent_out_of_range_rejected_1 : type_of% @Otr.c12_exponent_out_of_range_rejected_1 := @Otr.c12_exponent_out_of_range_rejected_1
+
+theorem c12_exponent_out_of_range_rejected_2 : type_of% @Otr.c12_exponent_out_of_range_rejected_2 := @Otr.c12_exponent_out_of_range_rejected_2
+
+theorem c12_exponent_out_of_range_rejected_3 : type_of% @Otr.c12_exponent_out_of_range_rejected_3 := @Otr.c12_exponent_out_of_range_rejected_3
+
+theorem c12_exponent_out_of_range_rejected_4 : type_of% @Otr.c12_exponent_out_of_range_rejected_4 := @Otr.c12_exponent_out_of_range_rejected_4
+
+theorem c12_exponent_plus_q_rejected_1 : type_of% @Otr.c12_exponent_plus_q_rejected_1 := @Otr.c12_exponent_plus_q_rejected_1
+
+theorem c12_exponent_plus_q_rejected_2 : type_of% @Otr.c12_exponent_plus_q_rejected_2 := @Otr.c12_exponent_plus_q_rejected_2
+
+theorem c12_exponent_plus_q_rejected_3 : type_of% @Otr.c12_exponent_plus_q_rejected_3 := @Otr.c12_exponent_plus_q_rejected_3
+
+theorem c12_exponent_plus_q_rejected_4 : type_of% @Otr.c12_exponent_plus_q_rejected_4 := @Otr.c12_exponent_plus_q_rejected_4
+
+theorem c12_exponent_zero_rejected_1 : type_of% @Otr.c12_exponent_zero_rejected_1 := @Otr.c12_exponent_zero_rejected_1
+
+theorem c12_exponent_zero_rejected_2 : type_of% @Otr.c12_exponent_zero_rejected_2 := @Otr.c12_exponent_zero_rejected_2
+
+theorem c12_exponent_zero_rejected_3 : type_of% @Otr.c12_exponent_zero_rejected_3 := @Otr.c12_exponent_zero_rejected_3
+
+theorem c12_exponent_zero_rejected_4 : type_of% @Otr.c12_exponent_zero_rejected_4 := @Otr.c12_exponent_zero_rejected_4
+
+theorem smp1Verify_exponents : type_of% @Otr.smp1Verify_exponents := @Otr.smp1Verify_exponents
+
+theorem smp2Verify_exponents : type_of% @Otr.smp2Verify_exponents := @Otr.smp2Verify_exponents
+
+theorem smp3Verify_exponents : type_of% @Otr.smp3Verify_exponents := @Otr.smp3Verify_exponents
+
+theorem smp4Verify_exponents : type_of% @Otr.smp4Verify_exponents := @Otr.smp4Verify_exponents
 
 theorem c12_no_panic_responder : type_of% @Otr.c12_no_panic_responder := @Otr.c12_no_panic_responder
 
